@@ -28,6 +28,8 @@ def _functor_calls(fn):
     out = []
     for e in flow.find(fn, {"k": "call"}):
         k = fn.kids(e)
+        if fn.nodes[e].get("callee", "") in ("std::forward", "std::move"):
+            continue
         if k and flow.has_src(fn, k[0], "param#0") and fn.nodes[e].get("callee", "").endswith("operator()") or (
                 k and fn.nodes[k[0]]["k"] == "ref" and fn.nodes[k[0]].get("dk") == "param"):
             out.append(e)
@@ -167,6 +169,14 @@ def rules(ctx):
         if not funcs or not stores:
             ctx.bad(rid, L + "update#shape", "update(): no functor call / no indicator store found (functor calls %d, stores %d)" % (len(funcs), len(stores)), fn.where(), fn=fn)
             continue
+        # the functor is applied twice: it must not be forwarded / moved (consumed) by an application that is followed by another one
+        for e_ in funcs:
+            k_ = fn.kids(e_)
+            consumed = bool(k_) and fn.nodes[k_[0]]["k"] == "call" and fn.nodes[k_[0]].get("callee", "") in ("std::forward", "std::move")
+            later = [f2 for f2 in funcs if f2 != e_ and fn.event_reaches(e_, f2)]
+            ctx.check(not (consumed and later), rid, L + "update#functor-not-consumed", "the functor is not forwarded as an rvalue before its last application",
+                      "update() applies std::forward/std::move(func) and applies the functor again afterwards: a functor with an rvalue-qualified (consuming) call operator "
+                      "is empty for the second application, so the update reaches only one of the two instances", fn.where(e_), fn=fn)
         # execute update() for both values of the indicator (finite, path-sensitive)
         for v in (0, 1):
             inst = L + "update#arm(indicator=%d)" % v
@@ -195,6 +205,14 @@ def rules(ctx):
         if len(inits) != 2 or not fn.params:
             continue
         srcs = {fn.nodes[e]["leaf"]: flow.srcs(fn, e) for e in inits}
+        if len(fn.params) == 1:
+            # both replicas from the single argument; the argument may be moved from only by the LAST initialiser that uses it
+            order = sorted(inits, key=lambda e: fn.pos()[e])
+            first_moves = any(fn.nodes[x]["k"] == "call" and fn.nodes[x].get("callee") == "std::move" for x in fn.subtree(order[0]))
+            ok = all(any(t.startswith("param#0") for t in srcs[l_]) for l_ in ("_left", "_right")) and not first_moves
+            ctx.check(ok, rid, L + "left_right(source)#both-replicas-from-the-argument", "both replicas are initialised from the argument, which is moved from last",
+                      "the one-argument constructor moves from its argument in the first member initialiser and uses it again for the second replica: the second replica is "
+                      "built from a moved-from value, readers alternate between two different histories after every update", fn.where(order[0]), fn=fn)
         if len(fn.params) == 2:
             ok = any(t.startswith("param#0") for t in srcs["_left"]) and any(t.startswith("param#1") for t in srcs["_right"]) and not any(
                 t.startswith("param#0") for t in srcs["_right"]) and not any(t.startswith("param#1") for t in srcs["_left"])
